@@ -226,10 +226,36 @@ def extract(rep, want=METHODS):
             ev = tmethods.MethodEval(classes, tc)
             try:
                 cs = ev.cases(m)
-                table[name][m] = (cs, ev.issues, None)
+                table[name][m] = ([c for c in cs if c.shortcut is None], ev.issues, None)
+                table[name]["shortcuts:" + m] = [c for c in cs if c.shortcut is not None]
             except Undecided as ex:
                 table[name][m] = (None, ev.issues, str(ex))
     return mod, classes, table
+
+
+def shortcut_agreement(rep, rule, name, file, m, general, shorts, line):
+    """a value returned early under `if mask.all()` equals what the general program computes for an element under that mask"""
+    for sc in shorts:
+        pol, mexpr, sline = sc.shortcut
+        for g in general:
+            if not tmethods.consistent(list(sc.conds) + list(g.conds)):
+                continue
+            if any(tmethods.mask_equal(m1, m2) and p1 != p2 for p1, m1 in sc.masks for p2, m2 in g.masks if m1 is not None and m2 is not None):
+                continue
+            cons = f"{name}.{m}: early return under an all-elements test [{case_text(sc)}] agrees with the general branch [{case_text(g)}]"
+            same = None
+            for cmp_ in (lambda a, b: F.to_ratio(a) == F.to_ratio(b), lambda a, b: F.to_mono(a).equal(F.to_mono(b)), lambda a, b: F.to_chain(a) == F.to_chain(b)):
+                try:
+                    same = bool(cmp_(sc.expr, g.expr))
+                    break
+                except Undecided:
+                    continue
+            if same is None and sc.expr == g.expr:
+                same = True
+            if same is None:
+                rep.undecided(rule, file, f"{name}.{m}", cons, "the two expressions could not be compared", line=sline)
+            else:
+                rep.check(same, rule, file, f"{name}.{m}", cons, f"early: {F.show(sc.expr)[:100]} ; general: {F.show(g.expr)[:100]}", line=sline, firm=True)
 
 
 def same_case(a, b):
@@ -317,6 +343,8 @@ def run(rep):
             continue
         # R01.a
         branch_agreement(rep, "R01.a", name, file, "_forward", fw[0], "_backward", bw[0], line)
+        for m_ in ("_forward", "_backward"):
+            shortcut_agreement(rep, "R01.a", name, file, m_, res[m_][0], res.get("shortcuts:" + m_, []), line)
         # R01.b
         for m in METHODS:
             cs = res[m][0]
